@@ -230,6 +230,50 @@ fn main() {
                     Err(_) => "ERR".to_string(),
                 }
             }
+            // udtde <kind> <udt field names,..|-> <cells: i32|n|x,..|->: derived DeserializeValue: type_check then deserialize of a UDT value
+            "udtde" => {
+                use scylla_cql_core::deserialize::value::DeserializeValue;
+                use scylla_cql_core::deserialize::FrameSlice;
+                use scylla_cql_core::frame::response::result::UserDefinedType;
+                use vk_core::c16_types::*;
+                let names: Vec<&str> = a[2].split(',').filter(|s| *s != "-").collect();
+                let ft: Vec<_> = names.iter().map(|n| (Cow::Owned(n.to_string()), ColumnType::Native(NativeType::Int))).collect();
+                let typ = ColumnType::UserDefinedType {
+                    frozen: false,
+                    definition: std::sync::Arc::new(UserDefinedType { name: "t".into(), keyspace: "k".into(), field_types: ft }),
+                };
+                let mut body: Vec<u8> = Vec::new();
+                for c in a[3].split(',').filter(|s| *s != "-") {
+                    match c {
+                        "x" => {}
+                        "n" => body.extend_from_slice(&(-1i32).to_be_bytes()),
+                        v => { body.extend_from_slice(&4i32.to_be_bytes()); body.extend_from_slice(&v.parse::<i32>().unwrap().to_be_bytes()); }
+                    }
+                }
+                let bytes = bytes::Bytes::from(body);
+                fn go<'f, 'm, T: DeserializeValue<'f, 'm>>(typ: &'m ColumnType<'m>, b: &'f bytes::Bytes, show: impl Fn(T) -> String) -> String {
+                    if T::type_check(typ).is_err() {
+                        return "TYPECK-ERR".to_string();
+                    }
+                    match T::deserialize(typ, Some(FrameSlice::new(b))) {
+                        Ok(v) => format!("OK {}", show(v)),
+                        Err(_) => "ERR".to_string(),
+                    }
+                }
+                let o = |x: Option<i32>| x.map(|v| format!("Some({})", v)).unwrap_or("None".to_string());
+                match a[1] {
+                    "D3" => go::<D3>(&typ, &bytes, |v| format!("{} {} {}", v.a, v.b, v.c)),
+                    "D3AllowMissingB" => go::<D3AllowMissingB>(&typ, &bytes, |v| format!("{} {} {}", v.a, v.b, v.c)),
+                    "D3DefaultNullA" => go::<D3DefaultNullA>(&typ, &bytes, |v| format!("{} {} {}", v.a, o(v.b), v.c)),
+                    "D3Strict" => go::<D3Strict>(&typ, &bytes, |v| format!("{} {} {}", v.a, v.b, v.c)),
+                    "D3RenameSkip" => go::<D3RenameSkip>(&typ, &bytes, |v| format!("{} {} {}", v.a, v.b, v.c)),
+                    "D3Ordered" => go::<D3Ordered>(&typ, &bytes, |v| format!("{} {} {}", v.a, v.b, v.c)),
+                    "D3OrderedStrict" => go::<D3OrderedStrict>(&typ, &bytes, |v| format!("{} {} {}", v.a, v.b, v.c)),
+                    "D3OrderedNoNames" => go::<D3OrderedNoNames>(&typ, &bytes, |v| format!("{} {} {}", v.a, v.b, v.c)),
+                    "D3OrderedMissingNull" => go::<D3OrderedMissingNull>(&typ, &bytes, |v| format!("{} {} {}", v.a, o(v.b), v.c)),
+                    _ => "UNKNOWN".to_string(),
+                }
+            }
             _ => "UNKNOWN".to_string(),
         })
         .unwrap_or("PANIC".to_string());
